@@ -408,3 +408,43 @@ def m_islice(ex, it, *args):
 
 
 CLASS_MODELS[itertools.islice] = m_islice
+
+
+# ---------------------------------------------------------------------------
+# split_fact(s, a, m): the instance  subseq(s, 0, a) + subseq(s, a, m) == subseq(s, 0, a + m)   (a, m >= 0)
+# of the split lemma of the theory of sequences.  Natively the equation is evaluated; symbolically the *generic*
+# lemma (for an arbitrary sequence and arbitrary a, m >= 0) is stated once per entry as an obligation of its own
+# (`lemma#seq-split`, proved by the solver in isolation) and the instance is added to the path condition as a hint.
+# ---------------------------------------------------------------------------
+def split_fact(s, a, m):
+    return a < 0 or m < 0 or subseq(s, 0, a) + subseq(s, a, m) == subseq(s, 0, a + m)
+
+
+def q_split_fact(ex, args, kwargs):
+    from .engine import Obligation, mk_bytes, zbytes
+
+    s, a, m = args
+    at_, mt = zint(M.plain(a)), zint(M.plain(m))
+    if M.is_byteslike(ex, s):
+        st = zbytes(ex.as_bytes_value(s))
+    else:
+        q = ex.as_symseq(s)
+        if q is None:
+            raise Unsupported('split_fact of something that is not a sequence')
+        st = q.t
+    S = z3.Const('__split_s', st.sort())
+    A, Mv = z3.Ints('__split_a __split_m')
+
+    def stmt(x, i, n):
+        return z3.Implies(z3.And(i >= 0, n >= 0), z3.Concat(z3.Extract(x, z3.IntVal(0), i), z3.Extract(x, i, n)) == z3.Extract(x, z3.IntVal(0), i + n))
+
+    name = ex.cfg.obl_name(ex, 'lemma', f'seq-split-{st.sort()}'.replace(' ', ''))
+    key = ('lemma', name)
+    if not any(o.key == key for o in ex.obligations):
+        ex.obligations.append(Obligation(name, 'lemma', [], stmt(S, A, Mv), ex.cur_loc, key, {'def_ids': set()}))
+    if not ex.quant:
+        ex.add_def(stmt(st, at_, mt))
+    return True
+
+
+SPEC_FORMS[split_fact] = q_split_fact
